@@ -33,6 +33,7 @@ type seqOracles struct {
 	trigRep   bool           // C19: the stream is replayed on a replica that carries the same triggers; they must be told the same
 	stream    bool           // tap-based stream checks (nothing emitted for rollbacks, ...)
 	final     func(w *World) // extra checks on the final state (fault enumeration)
+	start     func(w *World) // called once the primary exists and is prefilled, before the first step
 	roundtrip bool           // every emitted commit is also cloned and serialized through the simulated disk
 }
 
@@ -144,6 +145,9 @@ func runSeq(cs *Case, or seqOracles) (w *World) {
 			}
 		}
 		return true
+	}
+	if or.start != nil {
+		or.start(w)
 	}
 	if !check(-1) {
 		return w
